@@ -439,7 +439,36 @@ func (c *Check) scopeProvenance() {
 				c.Ob("R4", "owner identity set in "+root.Name()+" from the verified peer certificate's CN", call.Pos(), root.Name() == "requireOwner" && okv, "owner context value = "+short(val))
 				c.Ob("R4", "owner identity requires a TLS peer certificate and a valid address", call.Pos(), hasTLS && hasCert && okErr, "owner can be set for a request without a verified client certificate")
 			case "providerContextKey":
-				c.Ob("R4", "provider identity set in "+root.Name()+" from the server's own address", call.Pos(), root.Name() == "newRouter" && val == "fv:addr", "provider context value = "+val)
+				okProv := root.Name() == "newRouter" && val == "fv:addr"
+				if !okProv {
+					// a handler type of the package carrying the address in a field: every construction of that field
+					// must receive newRouter's own address parameter (new helpers are looked through by Sym)
+					if fld, isF := stripLoad(a[2]).(*ssa.FieldAddr); isF {
+						tn, f := structFieldOf(fld)
+						nst, okAll := 0, true
+						for _, g := range l.pkgFuncs("provider/gateway/rest") {
+							eachInstr(g, func(i ssa.Instruction) {
+								st, isSt := i.(*ssa.Store)
+								if !isSt {
+									return
+								}
+								fa, isFA := st.Addr.(*ssa.FieldAddr)
+								if !isFA {
+									return
+								}
+								if t2, f2 := structFieldOf(fa); t2 != tn || f2 != f {
+									return
+								}
+								nst++
+								if sv := Sym(st.Val); sv != "p:addr" && sv != "fv:addr" {
+									okAll = false
+								}
+							})
+						}
+						okProv = nst > 0 && okAll && strings.HasPrefix(tn, akash+"/provider/gateway/rest.")
+					}
+				}
+				c.Ob("R4", "provider identity set in "+root.Name()+" from the server's own address", call.Pos(), okProv, "provider context value = "+val)
 			case "leaseContextKey":
 				c.Ob("R4", "lease id set in "+root.Name()+" from parseLeaseID", call.Pos(), root.Name() == "requireLeaseID" && val == "rest.parseLeaseID(p:req)#0" && okEdgeAt(call.Block(), mustCallOf(a[2])), val)
 			case "deploymentContextKey":
@@ -647,4 +676,27 @@ func idFieldFromContext(l *Loaded, fn *ssa.Function, v ssa.Value) bool {
 		})
 	}
 	return ok && !bad
+}
+
+// stripLoad: the address a loaded (and possibly converted / boxed) value was read from, else the value itself.
+func stripLoad(v ssa.Value) ssa.Value {
+	for {
+		switch x := v.(type) {
+		case *ssa.MakeInterface:
+			v = x.X
+		case *ssa.ChangeInterface:
+			v = x.X
+		case *ssa.ChangeType:
+			v = x.X
+		case *ssa.UnOp:
+			if x.Op == token.MUL {
+				return x.X
+			}
+			return v
+		case *ssa.Field:
+			return v
+		default:
+			return v
+		}
+	}
 }
